@@ -354,8 +354,7 @@ def cbmc_cmd(unit, b, backend, props=None, trace=False):
     cmd = ['cbmc', b, '--json-ui'] + CBMC_CHECKS + BACKENDS[backend] + unit.extra_flags
     if unit.unwind:
         cmd += ['--unwind', str(unit.unwind), '--unwinding-assertions']
-    if unit.object_bits:
-        cmd += ['--object-bits', str(unit.object_bits)]
+    cmd += ['--object-bits', str(unit.object_bits or 12)]
     for p in (props or []):
         cmd += ['--property', p]
     if trace:
